@@ -13,7 +13,7 @@
 From Coq Require Import ZArith NArith List Reals.
 From Flocq Require Import Core IEEE754.BinarySingleNaN.
 From Common Require Import Bytes Outcome.
-From C25 Require Import Model Proofs.
+From C25 Require Import Model Proofs Bits.
 
 (* For every ratio c1/c2 whose float value is <= 1 (in particular whenever c1 <= c2, see
    C25_ratio_order) and every n >= 1: CalculateThreshold succeeds and returns
@@ -115,6 +115,13 @@ Theorem C25_secondary : forall slot n randomness, (1 <= n <= 4294967296)%Z ->
   (be_val (Blake2b.blake2b_256 (randomness ++ le_bytes 8 slot)) mod Z.to_N n < Z.to_N n)%N.
 Proof. exact secondary_author_spec. Qed.
 Print Assumptions C25_secondary.
+
+(* the bit-pattern transport of float64 values between the Go harness and the model (the
+   recorded math.Pow results, the compared 1-c and 1/n) loses nothing: decoding the encoding of
+   any binary64 value gives it back *)
+Theorem C25_bits_roundtrip : forall x : f64, f64_of_bits (f64_bits x) = x.
+Proof. exact bits_roundtrip. Qed.
+Print Assumptions C25_bits_roundtrip.
 
 (* ---- non-vacuity *)
 (* the hypotheses on pow64 are satisfiable (x^1 = x, which is what math.Pow returns for n = 1) *)
